@@ -398,7 +398,7 @@ CHECKS = {
                        "OnDelay (reads the clock: a foreign call) and the state after drop + open are not covered."),
         "level_note": "trusted: as C13; the model is the oracle for all policies (C13's runs are the Always(Flush) leg)",
         "filters": ["c14_", "c13_one"],
-        "quick": {"harnesses": [("real", "c14_pol*_q*"), ("real", "c13_one_q_0*")], "jobs": 14, "timeout": 1500},
+        "quick": {"harnesses": [("real", "c14_pol*_q*"), ("real", "c13_one_q_00[0-2]")], "jobs": 14, "timeout": 1500},
         "thorough": {"harnesses": [("real", "c14_*"), ("real", "c13_one_q_0*")], "jobs": 16, "timeout": 3000},
         "rule": "case = (persist policy, one call); counted from the symex log",
         "samples": ["c14_pol1_q_001: DoNothing, append(None) on queue a", "c14_pol2_q_007: Always(FlushAndFsync), truncate(first) with GC"],
